@@ -2,7 +2,7 @@
    Pinned statements only.  Model: Model/Manip.v (m_clone = clone_node), Model/Hist.v (clone_with_prefixes). *)
 From Coq Require Import List NArith ZArith.
 From XotV Require Import Model.Base Model.Zipper Model.Access Model.Store Model.Manip Model.Fullname Model.Scope Model.NsTools Model.Hist
-                         Proofs.ManipProofs Proofs.InvSteps Proofs.CloneFrame.
+                         Proofs.ManipProofs Proofs.InvSteps Proofs.CloneFrame Proofs.TreeFrame.
 Import ListNotations.
 Open Scope N_scope.
 
@@ -72,3 +72,14 @@ Theorem C12_clone_leaves_every_tree_alone :
   forall st n, Good st -> exists F, store (fst (m_clone st n)) = fapp F (store st).
 Proof. exact clone_frame. Qed.
 Print Assumptions C12_clone_leaves_every_tree_alone.
+
+(* "Any later mutation of either side leaves the other untouched": source and clone are different trees of the store (the clone
+   is a new root, C12_clone_leaves_every_tree_alone).  Let [T] be one side (any run of whole trees).  Whatever history of calls
+   is made afterwards, as long as no call names a node of [T] — it works on the other side, on other trees or on new nodes —
+   [T] stays in the store exactly as it is. *)
+Theorem C12_mutating_one_side_leaves_the_other_untouched :
+  forall T ops st, Good st -> (exists A B, store st = fapp A (fapp T B)) ->
+    (forall o x, In o ops -> In x (op_args o) -> ~ In x (ids T)) ->
+    exists A' B', store (fold_left (fun s o => fst (mstep s o)) ops st) = fapp A' (fapp T B').
+Proof. exact tree_frame_history. Qed.
+Print Assumptions C12_mutating_one_side_leaves_the_other_untouched.
